@@ -172,7 +172,7 @@ pub fn enumerate_symver(n: usize, seed: u64) -> Vec<SymverCase> {
 
 // ------------------------------------------------------------------------------------------------ C11 / C12
 #[derive(Clone, Debug)]
-pub struct HashCase { pub names: Vec<Vec<u8>>, pub absent: Vec<Vec<u8>>, pub nbucket: u32, pub nbloom: u32, pub shift: u32, pub elf64: bool, pub little: bool, pub corrupt: Option<(bool, usize, u8)> }
+pub struct HashCase { pub names: Vec<Vec<u8>>, pub absent: Vec<Vec<u8>>, pub nbucket: u32, pub nbloom: u32, pub shift: u32, pub elf64: bool, pub little: bool, pub corrupt: Option<(bool, usize, u8)>, pub symoff: u32 }
 
 fn elf_hash(name: &[u8]) -> u32 { let mut h: u32 = 0; for &c in name { h = (h << 4).wrapping_add(c as u32); let g = h & 0xf000_0000; if g != 0 { h ^= g >> 24; } h &= !g; } h }
 fn djb2(name: &[u8]) -> u32 { let mut h: u32 = 5381; for &c in name { h = h.wrapping_mul(33).wrapping_add(c as u32); } h }
@@ -194,7 +194,9 @@ pub fn check_hash_tables(c: &HashCase) -> Result<(), String> {
     // GNU: hashed symbols must be sorted by bucket; keep one ordering for both tables
     let nb = c.nbucket.max(1);
     let mut order: Vec<usize> = (1..nsym).collect();
-    order.sort_by_key(|&i| djb2(&c.names[i - 1]) % nb);
+    // GNU: the first symoffset-1 symbols (after the null symbol) are not hashed; the hashed ones are sorted by bucket
+    let symoff = (c.symoff.max(1)) as usize; let unhashed = (symoff - 1).min(order.len());
+    order[unhashed..].sort_by_key(|&i| djb2(&c.names[i - 1]) % nb);
     let name_of = |k: usize| -> &[u8] { if k == 0 { &[] } else { &c.names[order[k - 1] - 1] } };    // symbol k of the emitted table
     let mut symtab = Vec::new();
     for k in 0..nsym {
@@ -207,8 +209,8 @@ pub fn check_hash_tables(c: &HashCase) -> Result<(), String> {
     for k in 1..nsym { let b = (elf_hash(name_of(k)) % nb) as usize; chains[k] = buckets[b]; buckets[b] = k as u32; }
     let mut sysv = Vec::new(); w32(&mut sysv, l, nb); w32(&mut sysv, l, nsym as u32); for x in buckets.iter() { w32(&mut sysv, l, *x); } for x in chains.iter() { w32(&mut sysv, l, *x); }
     // ---- GNU: nbucket, symoffset, bloom_size, bloom_shift, bloom[], buckets[], chain[]
-    let symoff = 1usize; let nbloom = c.nbloom.max(1); let bits: u32 = if c.elf64 { 64 } else { 32 };
-    let mut bloom = vec![0u64; nbloom as usize]; let mut gb = vec![0u32; nb as usize]; let mut gc = vec![0u32; nsym - symoff];
+    let nbloom = c.nbloom.max(1); let bits: u32 = if c.elf64 { 64 } else { 32 };
+    let mut bloom = vec![0u64; nbloom as usize]; let mut gb = vec![0u32; nb as usize]; let mut gc = vec![0u32; nsym.saturating_sub(symoff)];
     for k in symoff..nsym {
         let h = djb2(name_of(k)); let b = (h % nb) as usize;
         bloom[((h / bits) % nbloom) as usize] |= (1u64 << (h % bits)) | (1u64 << (h.checked_shr(c.shift).unwrap_or(0) % bits));
@@ -241,7 +243,9 @@ pub fn check_hash_tables(c: &HashCase) -> Result<(), String> {
     for (q, present) in c.names.iter().map(|n| (n, true)).chain(c.absent.iter().filter(|a| !c.names.contains(a)).map(|n| (n, false))) {
         // the calls themselves are gated by the property being checked: a panic in the GNU lookup is not a C12 failure
         if on("C12") { if let Ok(t) = &sysv_t { check("SysV", t.find(q, &syms, &st), q, present)?; } }
-        if on("C11") { if let Ok(t) = &gnu_t { check("GNU", t.find(q, &syms, &st), q, present)?; } }
+        // GNU finds exactly the hashed symbols (index >= symoffset)
+        let hashed = (symoff..nsym).any(|k| name_of(k) == &q[..]);
+        if on("C11") { if let Ok(t) = &gnu_t { check("GNU", t.find(q, &syms, &st), q, present && hashed)?; } }
     }
     Ok(())
 }
@@ -254,7 +258,7 @@ pub fn enumerate_hash(n: usize, seed: u64) -> Vec<HashCase> {
         for _ in 0..nn { let x = mk(&mut r); if r.next(6) == 0 && !names.is_empty() { let d = names[r.next(names.len() as u64) as usize].clone(); names.push(d); } else { names.push(x); } }
         let absent: Vec<Vec<u8>> = (0..6).map(|_| mk(&mut r)).collect();
         let corrupt = if r.next(3) == 0 { Some((r.next(2) == 0, r.next(4096) as usize, r.next(256) as u8)) } else { None };
-        out.push(HashCase { names, absent, nbucket: [1u32, 1, 2, 3, 5, 8][r.next(6) as usize], nbloom: [1u32, 1, 2, 4][r.next(4) as usize], shift: [5u32, 6, 26, 0, 31, 11, 6, 40, 63, 32][r.next(10) as usize], elf64: r.next(2) == 0, little: r.next(2) == 0, corrupt });
+        out.push(HashCase { names, absent, nbucket: [1u32, 1, 2, 3, 5, 8][r.next(6) as usize], nbloom: [1u32, 1, 2, 4][r.next(4) as usize], shift: [5u32, 6, 26, 0, 31, 11, 6, 40, 63, 32][r.next(10) as usize], elf64: r.next(2) == 0, little: r.next(2) == 0, corrupt, symoff: [1u32, 1, 1, 1, 2, 3, 5, 9, 12, 40][r.next(10) as usize] });
     }
     out
 }
